@@ -1,5 +1,6 @@
 import Varint.Lemmas.DimBits
 import Varint.Lemmas.Dimension
+import Varint.Bridge.Dim
 /-
   C10 — dimension headers round-trip and matrix cells are independent.
 -/
@@ -204,5 +205,188 @@ example : setBit [3, 5, 0, 0, 0, 0] 16 2 4 true = some [3, 5, 0, 64, 0, 0] := by
 example : setEntry ([3, 5] ++ List.replicate 30 0) 16 2 4 0xffff 2 = some ([3, 5] ++ List.replicate 28 0 ++ [255, 255]) := by
   decide
 example : (pairEncode 256 (2 ^ 32)).1 = 40 ∧ colWidthOf 40 = 5 := by decide
+
+/-! ## C10 on the code itself: src/varintDimension.c machine-translated from the CURRENT source
+    (Varint.Gen.C.dim*; bridge theorems in Varint/Bridge/Dim.lean). `bufOf buf` is a byte buffer seen as memory,
+    `applyStores buf st` the buffer after the C's stores. -/
+
+open Varint.Gen.C Varint.Bridge Varint.Bridge.Dim in
+/-- **(rows, cols) packed into one integer, on the translated C**: every pair of 32-bit coordinates packs (result
+    true, level 1..8) and `varintDimensionUnpack` of the packed value at that level returns the pair; a coordinate of 33
+    bits or more makes `varintDimensionPack` return false without storing anything. Every fuel ≥ 9. -/
+theorem c_dimension_pack_roundtrip (r c fuel : Nat) (hr : r < 2 ^ 64) (hc : c < 2 ^ 64) (hf : 9 ≤ fuel) :
+    (r < 2 ^ 32 → c < 2 ^ 32 → ∃ p d, dimPack fuel r c = some (1, some p, some d) ∧ 1 ≤ d ∧ d ≤ 8 ∧ p < 2 ^ 64 ∧
+      dimUnpack p d = (some r, some c)) ∧
+    ((2 ^ 32 ≤ r ∨ 2 ^ 32 ≤ c) → dimPack fuel r c = some (0, none, none)) := by
+  have hp := dimPack_eq r c fuel hr hc hf
+  constructor
+  · intro hr32 hc32
+    obtain ⟨p, d, h1, h2, h3⟩ := dim_pack_roundtrip r c hr32 hc32
+    have hd : ∃ dd, packDim (max r c) = some dd ∧ dd = d := by
+      unfold pack at h1
+      cases hx : packDim (max r c) with
+      | none => rw [hx] at h1; simp at h1
+      | some dd =>
+        rw [hx] at h1
+        simp only [Option.map_some, Option.some.injEq, Prod.mk.injEq] at h1
+        exact ⟨dd, rfl, h1.2⟩
+    obtain ⟨dd, hdd, rfl⟩ := hd
+    obtain ⟨d1, d8, _⟩ := packDim_some _ _ hdd
+    rw [h1] at hp
+    refine ⟨p, dd, hp, d1, d8, h3, ?_⟩
+    rw [dimUnpack_eq p dd h3 d1 d8, h2]
+  · intro h
+    rw [(dim_pack_fails_iff r c).mpr h] at hp
+    exact hp
+
+open Varint.Gen.C Varint.Bridge Varint.Bridge.Dim Varint.Bridge.External in
+/-- **the variable-width dimension header on the translated C**: `varintDimensionPairEncode` returns a pair byte that
+    announces exactly the widths used, stores each of the rowWidth + colWidth header bytes exactly once and nothing beyond,
+    and `varintDimensionPairDecode` of any memory holding those bytes returns (rows, cols). Every 64-bit row count
+    (0 = vector), every column count 1 ≤ cols < 2^64, every fuel ≥ 8. -/
+theorem c_dimension_header_roundtrip (rows cols fuel : Nat) (hr : rows < 2 ^ 64) (hc1 : 1 ≤ cols) (hc : cols < 2 ^ 64)
+    (hf : 8 ≤ fuel) (mem : Nat → Nat)
+    (hm : ∀ i, i < (pairEncode rows cols).2.length → mem i = (pairEncode rows cols).2.getD i 0) :
+    ∃ st, dimPairEncode fuel rows cols = some ((pairEncode rows cols).1, st) ∧ Writes st (pairEncode rows cols).2 ∧
+      (pairEncode rows cols).2.length = hdrLen (pairEncode rows cols).1 ∧
+      rowWidthOf (pairEncode rows cols).1 = widthRows rows ∧ colWidthOf (pairEncode rows cols).1 = extLen cols ∧
+      dimPairDecode mem (pairEncode rows cols).1 = (some rows, some cols) := by
+  obtain ⟨st, h1, h2⟩ := dimPairEncode_eq rows cols fuel hr hc1 hc hf
+  have hrt := dim_pair_roundtrip rows cols hr hc1 hc []
+  simp only [List.append_nil] at hrt
+  obtain ⟨hdec, hlen, hw1, hw2, h16⟩ := hrt
+  refine ⟨st, h1, h2, hlen, hw1, hw2, ?_⟩
+  have hwr : rowWidthOf (pairEncode rows cols).1 ≤ 8 := by
+    rw [hw1]; unfold widthRows; split
+    · omega
+    · exact extLen_le_8 hr
+  have hbytes : ∀ b ∈ (pairEncode rows cols).2, b < 256 := by
+    intro b hb
+    unfold pairEncode at hb
+    simp only [List.mem_append] at hb
+    rcases hb with hb | hb
+    · exact leBytes_lt _ _ b hb
+    · exact leBytes_lt _ _ b hb
+  have hmem : ∀ i, i < rowWidthOf (pairEncode rows cols).1 + colWidthOf (pairEncode rows cols).1 →
+      mem i = Varint.Bridge.Tagged.bufOf (pairEncode rows cols).2 i := by
+    intro i hi
+    unfold hdrLen at hlen
+    exact hm i (by omega)
+  rw [dimPairDecode_eq mem _ hwr (by
+    intro i hi
+    rw [hmem i hi]
+    exact Varint.Bridge.Tagged.bufOf_lt _ hbytes i)]
+  have e1 : (List.range (rowWidthOf (pairEncode rows cols).1)).map mem =
+      (List.range (rowWidthOf (pairEncode rows cols).1)).map
+        (fun i => Varint.Bridge.Tagged.bufOf (pairEncode rows cols).2 (0 + i)) := by
+    apply List.map_congr_left
+    intro i hi
+    rw [Nat.zero_add]
+    exact hmem i (by have := List.mem_range.mp hi; omega)
+  have e2 : (List.range (colWidthOf (pairEncode rows cols).1)).map
+        (fun i => mem (rowWidthOf (pairEncode rows cols).1 + i)) =
+      (List.range (colWidthOf (pairEncode rows cols).1)).map
+        (fun i => Varint.Bridge.Tagged.bufOf (pairEncode rows cols).2 (rowWidthOf (pairEncode rows cols).1 + i)) := by
+    apply List.map_congr_left
+    intro i hi
+    exact hmem _ (by have := List.mem_range.mp hi; omega)
+  unfold hdrLen at hlen
+  rw [e1, e2, range_map_bufOf _ 0 _ (by omega), range_map_bufOf _ _ _ (by omega)]
+  unfold pairDecode takeExact at hdec
+  simp only [] at hdec
+  rw [if_pos (by omega), if_pos (by simp; omega)] at hdec
+  simp only [Option.some.injEq, Prod.mk.injEq] at hdec
+  simp only [List.drop_zero]
+  rw [hdec.1, hdec.2]
+
+open Varint.Gen.C Varint.Bridge Varint.Bridge.Dim Varint.Bridge.Tagged in
+/-- **bit cells on the translated C**: `varintDimensionPairEntrySetBit` makes exactly one store, inside the buffer,
+    after which `varintDimensionPairEntryGetBit` of that cell returns the written bit (true sets, false clears); the
+    header bytes and the buffer length are unchanged -/
+theorem c_dimension_bit_set_get {buf : List Nat} {dim row col k : Nat} (h : CellOK buf dim row col k) (on : Bool) :
+    ∃ nb, dimEntrySetBit (bufOf buf) row col (if on then 1 else 0) dim = [(hdrLen dim + k / 8, nb)] ∧
+      hdrLen dim + k / 8 < buf.length ∧
+      dimEntryGetBit (bufOf (applyStores buf [(hdrLen dim + k / 8, nb)])) row col dim = (if on then 1 else 0) ∧
+      (applyStores buf [(hdrLen dim + k / 8, nb)]).take (hdrLen dim) = buf.take (hdrLen dim) ∧
+      (applyStores buf [(hdrLen dim + k / 8, nb)]).length = buf.length := by
+  obtain ⟨nb, h1, h2⟩ := dimEntrySetBit_eq h on
+  obtain ⟨_, _, hlen, htake, hbytes⟩ := dim_bit_isolated buf _ dim row col k on h.idx h2
+  have hget := dim_bit_get_set buf _ dim row col on h2
+  have hok : CellOK (applyStores buf [(hdrLen dim + k / 8, nb)]) dim row col k :=
+    { bytes := hbytes h.bytes, hdr := by rw [hlen]; exact h.hdr, wr := h.wr, row64 := h.row64, col64 := h.col64,
+      idx := by rw [cellIndex_congr _ buf dim row col htake hlen]; exact h.idx, k64 := h.k64,
+      inside := by rw [hlen]; exact h.inside }
+  obtain ⟨g1, g2⟩ := dimEntryGetBit_eq hok
+  refine ⟨nb, h1, h.inside, ?_, htake, hlen⟩
+  rw [hget] at g1
+  simp only [Option.some.injEq] at g1
+  cases on with
+  | true =>
+    have : dimEntryGetBit (bufOf (applyStores buf [(hdrLen dim + k / 8, nb)])) row col dim = 1 := by
+      have := g1; simp at this; exact this
+    simp [this]
+  | false =>
+    have : ¬ dimEntryGetBit (bufOf (applyStores buf [(hdrLen dim + k / 8, nb)])) row col dim = 1 := by
+      have := g1; simp at this; exact this
+    simp only [Bool.false_eq_true, if_false]
+    omega
+
+open Varint.Gen.C Varint.Bridge Varint.Bridge.Dim Varint.Bridge.Tagged in
+/-- **toggle on the translated C** returns the previous value of the bit and leaves it flipped -/
+theorem c_dimension_bit_toggle {buf : List Nat} {dim row col k : Nat} (h : CellOK buf dim row col k) :
+    ∃ r nb, dimEntryToggleBit (bufOf buf) row col dim = (r, [(hdrLen dim + k / 8, nb)]) ∧
+      r = dimEntryGetBit (bufOf buf) row col dim ∧
+      getBit (applyStores buf [(hdrLen dim + k / 8, nb)]) dim row col = some (!decide (r = 1)) := by
+  obtain ⟨r, nb, h1, hr, h2⟩ := dimEntryToggleBit_eq h
+  obtain ⟨g1, g2⟩ := dimEntryGetBit_eq h
+  obtain ⟨a, b, _⟩ := dim_bit_toggle buf _ dim row col _ h2
+  refine ⟨r, nb, h1, ?_, b⟩
+  rw [g1] at a
+  simp only [Option.some.injEq, decide_eq_decide] at a
+  by_cases c : r = 1
+  · have := a.mpr c; omega
+  · have : ¬ dimEntryGetBit (bufOf buf) row col dim = 1 := fun e => c (a.mp e)
+    omega
+
+open Varint.Gen.C Varint.Bridge Varint.Bridge.Dim Varint.Bridge.Tagged in
+/-- **unsigned entries of 1–8 bytes on the translated C** (float / double cells are the 4- / 8-byte case on their IEEE
+    bits): after `varintDimensionPairEntrySetUnsigned` a `varintDimensionPairEntryGetUnsigned` of that cell returns the
+    written value; the stores leave every header byte and the buffer length unchanged -/
+theorem c_dimension_entry_set_get (buf : List Nat) (hb : ∀ b ∈ buf, b < 256) (dim row col v w k : Nat)
+    (hlen : hdrLen dim ≤ buf.length) (hwr : rowWidthOf dim ≤ 8) (hidx : cellIndex buf dim row col = some k)
+    (h1 : 1 ≤ w) (h8 : w ≤ 8) (hin : hdrLen dim + k * w + w ≤ buf.length) (h64 : buf.length < 2 ^ 64)
+    (hv : v < 256 ^ w) :
+    let out := applyStores buf (dimEntrySetUnsigned (bufOf buf) row col v w dim)
+    dimEntryGetUnsigned (bufOf out) row col w dim = v ∧ out.take (hdrLen dim) = buf.take (hdrLen dim) ∧
+      out.length = buf.length := by
+  intro out
+  have hset := dimEntrySetUnsigned_eq buf hb dim row col v w k hlen hwr hidx h1 h8 hin h64
+  have hget := dim_cell_get_set buf out dim row col v w hv hset
+  have hl : out.length = buf.length := by
+    unfold setEntry at hset; rw [hidx] at hset; exact writeAt_length _ _ _ _ hset
+  have ht : out.take (hdrLen dim) = buf.take (hdrLen dim) := by
+    unfold setEntry at hset; rw [hidx] at hset
+    exact take_writeAt _ _ _ _ (hdrLen dim) hset (by omega)
+  have hbo : ∀ b ∈ out, b < 256 := by
+    have hs := hset
+    unfold setEntry at hs; rw [hidx] at hs
+    simp only [] at hs
+    unfold writeAt at hs
+    rw [if_pos (by rw [leBytes_length]; exact hin)] at hs
+    simp only [Option.some.injEq] at hs
+    intro b hbm
+    rw [show out = _ from hs.symm] at hbm
+    simp only [List.mem_append] at hbm
+    rcases hbm with (hbm | hbm) | hbm
+    · exact hb b (List.mem_of_mem_take hbm)
+    · exact leBytes_lt _ _ b hbm
+    · exact hb b (List.mem_of_mem_drop hbm)
+  have hidx' : cellIndex out dim row col = some k := by
+    rw [cellIndex_congr out buf dim row col ht hl]; exact hidx
+  have := dimEntryGetUnsigned_eq out hbo dim row col w k (by rw [hl]; exact hlen) hwr hidx' h1 h8
+    (by rw [hl]; exact hin) (by rw [hl]; exact h64)
+  rw [hget] at this
+  simp only [Option.some.injEq] at this
+  exact ⟨this.symm, ht, hl⟩
 
 end Varint.Props.C10
